@@ -1,5 +1,4 @@
 from shexer.utils.log import log_msg
-from shexer.utils.uri import there_is_arroba_after_last_quotes
 from shexer.utils.triple_yielders import tune_prop, tune_token  # , check_if_property_belongs_to_namespace_list
 from shexer.io.graph.yielder.base_triples_yielder import BaseTriplesYielder
 
@@ -89,23 +88,31 @@ class NtTriplesYielder(BaseTriplesYielder):
         return index - 1
 
     def _look_for_last_index_of_literal_token(self, target_str, first_index):
-        target_substring = target_str[first_index:]
+        """
+        The token starts at the opening quotes in first_index. Its lexical form ends at the next quotes that are
+        not escaped (preceded by an even number of backslashes); whatever the lexical form contains ('@', '^^',
+        '#', ' .'...) does not matter. A language tag or a datatype may follow the closing quotes.
+        """
+        index_closing_quotes = self._look_for_index_of_closing_quotes(target_str, first_index)
+        if target_str[index_closing_quotes + 1:index_closing_quotes + 2] == "@":  # String labelled with language
+            return self._look_for_last_index_before_blank(target_str, index_closing_quotes + 1)
+        elif target_str[index_closing_quotes + 1:index_closing_quotes + 4] == "^^<":  # Typed
+            return target_str.find(">", index_closing_quotes + 1)
+        elif target_str[index_closing_quotes + 1:index_closing_quotes + 3] == "^^":  # Typed, prefixed datatype
+            return self._look_for_last_index_before_blank(target_str, index_closing_quotes + 1)
+        return index_closing_quotes  # Not typed
 
-        if there_is_arroba_after_last_quotes(target_substring):  # String labelled with language
-            return self._look_for_last_index_before_blank(target_str, target_str.rfind("@"))
-        elif "^^" not in target_substring:  # Not typed
-            success = False
-            index_of_quotes = 1
-            while not success:
-                index_of_second_quotes = target_substring[index_of_quotes + 1:].find('"') + index_of_quotes + 1
-                if target_substring[index_of_second_quotes - 1] != "\\":
-                    success = True
-                elif target_substring[index_of_second_quotes - 2] == "\\":  # Case of escaped slash "\\"
-                    success = True
-                index_of_quotes = index_of_second_quotes
-            return index_of_quotes + (len(target_str) - len(target_substring))
-        else:  # Typed
-            return self._look_for_last_index_before_blank(target_str, target_str.find("^^"))
+    @staticmethod
+    def _look_for_index_of_closing_quotes(target_str, first_index):
+        index = first_index + 1
+        while index < len(target_str):
+            if target_str[index] == "\\":  # escape sequence: skip the escaped char
+                index += 2
+            elif target_str[index] == '"':
+                return index
+            else:
+                index += 1
+        return len(target_str) - 1  # unterminated literal: the token takes the rest of the line
 
     @property
     def yielded_triples(self):
